@@ -51,10 +51,13 @@ MULH = MUL("mul_comba", 1, _mul_sizes, lambda ua, ub: "quick" if ua * ub <= 4 el
 SQRH = MUL("sqr_comba", 2, _sqr_sizes, lambda ua, ub: "quick" if ua <= 2 else "thorough")
 
 DIVH = LIN("div", 10, 2, (0,), extra={"VF_QBITS": 3})
+DIVQ = LIN("div_small", 10, 1, (0,), extra={"VF_QBITS": 2})   # quick: quotients below 2^3
+DIVQ["cases"] = [c for c in DIVQ["cases"] if c["defs"]["VF_UB"] == 1 and c["defs"]["VF_UA"] == 1]
+DIVQ["unwind"] = 10
+DIVQ["unwindset"] = {"pstm_div:/while \\(n-- >= 0\\)/": 4, "vf_harness:/for \\(k = 0/": 5, "pstm_count_bits:/./": 66}
 DIVH["cases"] = [c for c in DIVH["cases"] if c["defs"]["VF_UB"] >= 1 and c["defs"]["VF_UA"] >= c["defs"]["VF_UB"]]
 for _c in DIVH["cases"]:
-    if (_c["defs"]["VF_UA"], _c["defs"]["VF_UB"]) != (1, 1):
-        _c["tier"] = "thorough"
+    _c["tier"] = "thorough"
 DIVH["cap_s"] = 3600
 DIVH["unwind"] = 10
 DIVH["unwindset"] = {"pstm_div:/while \\(n-- >= 0\\)/": 5, "vf_harness:/for \\(k = 0/": 6, "pstm_count_bits:/./": 66}
@@ -79,11 +82,11 @@ MODW = dict(
     cases=[dict(name="signs", defs={})])
 # MODH (pstm_mod + a second pstm_div call per query) gave no verdict in 25 min even for 1x1 digits;
 # it is replaced by MODW: pstm_mod over the pstm_div contract that DIVH decides
-HARNESSES += [DIVH, MODW]
+HARNESSES += [DIVQ, DIVH, MODW]
 
 PROPERTY = dict(level='model_checking',
-    claim='pstm add/sub/sub_s/cmp/mul_2/div_2/div_2d (quotient and remainder, every shift count, c aliasing a)/lshd/rshd/copy and pstm_div (a = q*b + r, |r| < |b|, signs; quotients below 2^4) equal an independent ripple-carry reference for all 64-bit digit values, all signs, output aliasing; comba multiplication and squaring over the asm2c-translated x86-64 kernels equal schoolbook multiplication with the 64x64 product as an uninterpreted symmetric function; pstm_mod returns the residue with the sign of the modulus (or zero) for every sign combination, given an exact pstm_div (contract stub).',
+    claim='pstm add/sub/sub_s/cmp/mul_2/div_2/div_2d (quotient and remainder, every shift count, c aliasing a)/lshd/rshd/copy and pstm_div (a = q*b + r, |r| < |b|, signs; quotients below 2^3 quick, 2^4 thorough) equal an independent ripple-carry reference for all 64-bit digit values, all signs, output aliasing; comba multiplication and squaring over the asm2c-translated x86-64 kernels equal schoolbook multiplication with the 64x64 product as an uninterpreted symmetric function; pstm_mod returns the residue with the sign of the modulus (or zero) for every sign combination, given an exact pstm_div (contract stub).',
     bounds='operands <= 3 digits (mul/sqr quick: <= 2x2 / 2; thorough 3x3 / 3; 4-digit squaring gave no verdict in 60 min), capacity 8 digits',
     outside='pstm_div beyond quotients of 4 bits and 2-digit operands (the per-bit loop costs ~100 s of solver time per quotient bit), Montgomery reduction, exptmod, invmod, larger operand sizes, the unrolled 16/32-digit variants, non-x86-64 kernels',
-    explanation='pstm add/sub/sub_s/cmp/mul_2/div_2/lshd/rshd/copy and pstm_div (a = q*b + r, |r| < |b|, signs; quotients below 2^4) equal an independent ripple-carry reference for all 64-bit digit values, all signs, output aliasing; comba multiplication and squaring over the asm2c-translated x86-64 kernels equal schoolbook multiplication with the 64x64 product as an uninterpreted symmetric function; pstm_mod returns the residue with the sign of the modulus (or zero) for every sign combination, given an exact pstm_div (contract stub).',
+    explanation='pstm add/sub/sub_s/cmp/mul_2/div_2/lshd/rshd/copy and pstm_div (a = q*b + r, |r| < |b|, signs; quotients below 2^3 quick, 2^4 thorough) equal an independent ripple-carry reference for all 64-bit digit values, all signs, output aliasing; comba multiplication and squaring over the asm2c-translated x86-64 kernels equal schoolbook multiplication with the 64x64 product as an uninterpreted symmetric function; pstm_mod returns the residue with the sign of the modulus (or zero) for every sign combination, given an exact pstm_div (contract stub).',
     assumptions=[])
